@@ -84,9 +84,16 @@ fn leg_gen(out: &Path, cfg: &Config, k: usize, progs: &[crate::ast::Program], ve
         let mut rejected = vec![];
         let (compiled, alive) =
             crate::compile_programs(&dir, &format!("c05_gen_cfg{k}_{ci}"), chunk, cfg, &mut rejected)?;
-        let solver_only = cfg.gas == Some(Solver::NonLinear)
-            && rejected.iter().all(|(_, m)| m.contains("FailedGasCalculation"));
+        // under the legacy (non-linear) solvers a program may be rejected at the Sierra -> CASM stage:
+        // the other programs of the crate are still run; the rejected ones are reported per program
+        let solver_only = cfg.gas == Some(Solver::NonLinear) && rejected.iter().all(|(_, m)| m.starts_with("INTERNAL"));
         if !rejected.is_empty() && !solver_only {
+            if let Some((src, msg)) = rejected.iter().find(|(_, m)| !m.contains("FailedGasCalculation")) {
+                let _ = std::fs::write(
+                    out.join(format!("config_rejects_example_cfg{k}.cairo")),
+                    format!("// under {}\n// {msg}\n{src}", cfg.name()),
+                );
+            }
             return Err(format!(
                 "configuration {} rejects {} generated program(s): {}",
                 cfg.name(),
@@ -94,20 +101,30 @@ fn leg_gen(out: &Path, cfg: &Config, k: usize, progs: &[crate::ast::Program], ve
                 rejected[0].1
             ));
         }
-        if let Some((src, msg)) = rejected.first() {
+        if let Some((src, msg)) = rejected.iter().find(|(_, m)| m.contains("FailedGasCalculation")) {
             // the legacy (non-linear) gas solver gives up on some valid programs: not a result.
             // Keep one such program for inspection.
             let _ = std::fs::write(out.join("nonlinear_solver_failed_example.cairo"), format!("// {msg}\n{src}"));
         }
         for (pi, p) in chunk.iter().enumerate() {
             if !alive.contains(&pi) {
+                let src = p.cairo();
+                let msg = rejected.iter().find(|(s, _)| *s == src).map(|(_, m)| m.clone()).unwrap_or_default();
+                let marker = if msg.contains("FailedGasCalculation") {
+                    "FailedGasCalculation (non-linear solver)".to_string()
+                } else {
+                    // a compile error caused by the configuration: reported as a finding by `compare`
+                    let path = out.join(format!("config_rejects_{}_cfg{k}.cairo", p.tag));
+                    let _ = std::fs::write(&path, format!("// under {}\n// {msg}\n{src}", cfg.name()));
+                    format!("CONFIG-REJECTS {} [{}]", msg.chars().take(260).collect::<String>(), path.display())
+                };
                 let fname = format!("::{}", p.fn_name(p.entry()));
                 for args in &vectors[ci * 50 + pi] {
                     let mut cells = vec![];
                     for a in args {
                         a.flatten(&mut cells);
                     }
-                    res.insert((fname.clone(), cells), Obs::Error("FailedGasCalculation (non-linear solver)".into()));
+                    res.insert((fname.clone(), cells), Obs::Error(marker.clone()));
                 }
             }
         }
@@ -424,6 +441,7 @@ fn compare(leg: &str, runs: &[LegRun], failures: &mut Vec<serde_json::Value>, st
     let mut inconclusive = 0;
     let mut errors = vec![];
     let mut not_applicable = vec![];
+    let mut rejected_seen: Vec<(String, String)> = vec![];
     for class in [false, true] {
       let runs: Vec<&LegRun> = runs.iter().filter(|r| r.cfg.gas.is_some() == class).collect();
       if runs.is_empty() {
@@ -469,6 +487,21 @@ fn compare(leg: &str, runs: &[LegRun], failures: &mut Vec<serde_json::Value>, st
                     if lim(a) || lim(b) {
                         inconclusive += 1;
                         continue;
+                    }
+                    if let Obs::Error(m) = b {
+                        if m.starts_with("CONFIG-REJECTS") && !matches!(a, Obs::Error(_)) {
+                            if !rejected_seen.contains(&(key.0.clone(), r.cfg.name())) {
+                                rejected_seen.push((key.0.clone(), r.cfg.name()));
+                                if rejected_seen.len() <= 4 {
+                                    failures.push(serde_json::json!({
+                                        "leg": leg, "why": "a configuration cannot compile a program that the reference configuration compiles and runs",
+                                        "item": key.0, "args": cells_show(&key.1),
+                                        "config_a": runs[0].cfg.name(), "result_a": a.show(),
+                                        "config_b": r.cfg.name(), "error": m}));
+                                }
+                            }
+                            continue;
+                        }
                     }
                     if a != b {
                         n_fail += 1;
@@ -560,7 +593,7 @@ pub fn main_c05(out: &Path, tier: &str, seed: u64) {
                     if let Some(obs) = res.get(&(fname.clone(), cells.clone())) {
                         ref_checked += 1;
                         let e = it.run(p.entry(), args);
-                        let skipped = matches!(obs, Obs::Error(m) if m.contains("FailedGasCalculation (non-linear solver)"));
+                        let skipped = matches!(obs, Obs::Error(m) if m.contains("FailedGasCalculation (non-linear solver)") || m.starts_with("CONFIG-REJECTS"));
                         if !skipped && !crate::agrees(&e, obs) && !matches!(e, Outcome::Stuck(_)) {
                             ref_bad += 1;
                             if ref_bad <= 3 {
